@@ -171,7 +171,36 @@ def big_scripts(family):
                 # ids of new keys (the driver tries every order only up to 5 items)
                 s += "str.SetMany 12 " + " ".join(f"{e(i)} {hx('w%d' % i)}" for i in idx[:12]) + "\n"
                 s += "str.GetMany 12 " + " ".join(e(i) for i in idx[:12]) + "\nkey.Len\n"
-    return [dict(kind="script", script=s)] if s else []
+    out = [dict(kind="script", script=s)] if s else []
+    # argument lists longer than any batching constant (620 names / members / fields in ONE call, 310 of them present):
+    # counts and effects must be those of the whole list
+    def n4(i):
+        return hx("m%04d" % i)
+    N = 620
+    allm = " ".join(n4(i) for i in range(N))
+    some = " ".join(n4(i) for i in range(0, N, 2))
+    b = ""
+    for mode in ("db", "tx"):
+        b += f"--- {mode}\n"
+        if family == "set":
+            b += (f"!set.Add {K1} {N // 2} {some}\nset.Add {K1} {N} {allm}\nset.Len {K1}\n"
+                  f"set.Delete {K1} {N // 2} {some}\nset.Len {K1}\nset.Delete {K1} {N} {allm}\nset.Len {K1}\n")
+        elif family == "hash":
+            pairs_some = " ".join(f"{n4(i)} {hx('v')}" for i in range(0, N, 2))
+            pairs_new = " ".join(f"{n4(i)} {hx('w')}" for i in range(0, N, 2))
+            b += (f"!hash.SetMany {K1} {N // 2} {pairs_some}\nhash.GetMany {K1} {N} {allm}\nhash.SetMany {K1} {N // 2} {pairs_new}\n"
+                  f"hash.Len {K1}\nhash.Delete {K1} {N} {allm}\nhash.Len {K1}\n")
+        elif family == "zset":
+            z_some = " ".join(f"{n4(i)} 1p0" for i in range(0, N, 2))
+            z_new = " ".join(f"{n4(i)} 1p1" for i in range(0, N, 2))
+            b += (f"!zset.AddMany {K1} {N // 2} {z_some}\nzset.AddMany {K1} {N // 2} {z_new}\nzset.Len {K1}\nzset.Count {K1} 1p1 1p1\n"
+                  f"zset.Delete {K1} {N} {allm}\nzset.Len {K1}\n")
+        elif family == "str":
+            sm = " ".join(f"{n4(i)} {hx('v')}" for i in range(0, N, 2))
+            b += (f"!str.SetMany {N // 2} {sm}\nstr.GetMany {N} {allm}\nkey.Count {N} {allm}\nkey.Delete {N} {allm}\nkey.Len\n")
+    if b:
+        out.append(dict(kind="script", script=b))
+    return out
 
 EA, EB, EC = hx("a"), hx("b"), hx("c")
 
@@ -397,6 +426,18 @@ class CrossCfg(Cfg):
 
 
 class C06(CrossCfg):
+    def streams(self, tier, seed, search):
+        out = CrossCfg.streams(self, tier, seed, search)
+        N = 620
+        allm = " ".join(hx("m%04d" % i) for i in range(N))
+        sm = " ".join(f"{hx('m%04d' % i)} {hx('v')}" for i in range(0, N, 2))
+        b = ""
+        for mode in ("db", "tx"):
+            b += (f"--- {mode}\n!str.SetMany {N // 2} {sm}\n!list.PushBack {hx('m0001')} {EA}\nkey.Count {N} {allm}\n"
+                  f"key.Delete {N} {allm}\nkey.Len\nkey.Count {N} {allm}\n")
+        out.append(dict(kind="script", script=b))
+        return out
+
     lean = ["Props.C06ref", "Audit.C06ref"]
     audit = ["C06ref"]
     tie = ["SqlFull_rkey", "Facts_rkey", "SqlTypes", "Schema"]
@@ -1011,6 +1052,11 @@ class C15(WireCfg):
                             script += "1 " + A[ai] + "\n"
                             ai += 1
         out.append(dict(kind="wirescript", driver="wiredriver", script=script))
+        # a block far longer than any batching constant: 1100 queued commands, then one that fails; nothing may be kept
+        # (and a block of 1100 commands that all succeed is kept whole)
+        big = "---\n1 SET str x\n1 MULTI\n" + "1 INCR counter\n" * 1100 + "1 LPUSH str y\n1 EXEC\n1 GET counter\n1 DBSIZE\n"
+        big += "---\n1 MULTI\n" + "1 INCR counter\n" * 1100 + "1 EXEC\n1 GET counter\n"
+        out.append(dict(kind="wirescript", driver="wiredriver", script=big))
         return out
 
     def judge(self, op, v, mode):
